@@ -331,7 +331,19 @@ def coqchk_props(timeout=3000):
     """independent re-check (coqchk) of every compiled property file and everything it depends on; returns
     (ok, axioms reported outside the library's primitive integers/floats/arrays, log tail)"""
     mods = []
-    for f in sorted(os.listdir(os.path.join(COQ, "theories", "Props"))):
+    pdir = os.path.join(COQ, "theories", "Props")
+    # files compiled on demand (outside _CoqProject: *_full.v) are not rebuilt by make: recompile them against the
+    # current theories first, and leave out those that do not compile on this tree (e.g. a full-strength statement
+    # whose exception list is not empty) instead of handing coqchk a stale object file
+    for f in sorted(os.listdir(pdir)):
+        if f.endswith("_full.v"):
+            for ext in (".vo", ".vok", ".vos", ".glob"):
+                try:
+                    os.remove(os.path.join(pdir, f[:-2] + ext))
+                except OSError:
+                    pass
+            coqc_file("theories/Props/" + f)
+    for f in sorted(os.listdir(pdir)):
         if f.endswith(".vo"):
             mods.append("GV.Props." + f[:-3])
     p = run(["timeout", str(timeout), "coqchk", "-silent", "-o", "-R", "theories", "GV"] + mods, cwd=COQ, timeout=timeout + 60)
